@@ -42,10 +42,10 @@ TIERS = {
     # enum: groups of domains explored by one JVM each (domains, TLC workers, spellings per program); fixed: the same for
     # the Fix = all runs; witness: "all" = one run over the unrestricted domain, "each" = one run per trigger (Allow = {t});
     # ntarget: seeded random programs evaluated in target mode (tvariants spellings each); procs: replay processes
-    "quick": {"enum": [(["pair_q", "single3q", "tree_q"], 4, 1), (["triple_q", "single2", "reload_q"], 4, 1)], "fixed": [(["single2", "pair_w"], 2)],
+    "quick": {"enum": [(["pair_q", "single3q", "tree_q", "nested_q"], 4, 1), (["triple_q", "single2", "reload_q", "split_q"], 4, 1)], "fixed": [(["single2", "pair_w"], 2)],
               "witness": "all", "ntarget": 3000, "tvariants": 1, "procs": 10, "jvms": 6},
     "thorough": {"enum": [(["pair_t"], 5, 1), (["triple_t"], 5, 1), (["single3"], 5, 1), (["pair_m", "single4"], 5, 1), (["pairhdr"], 5, 1),
-                          (["tree_t", "reload_t"], 5, 1), (["pair_q", "single3q", "triple_q", "single2", "tree_q", "reload_q"], 4, 2)],
+                          (["tree_t", "reload_t", "split_t"], 5, 1), (["pair_q", "single3q", "triple_q", "single2", "tree_q", "reload_q", "nested_q", "split_q"], 4, 2)],
                  "fixed": [(["pair_q", "single3q", "triple_q", "single2", "pair_w", "tree_q"], 4), (["pair_m", "pairhdr"], 5)],
                  "witness": "each", "ntarget": 50000, "tvariants": 2, "procs": 10, "jvms": 3},
 }
@@ -113,6 +113,17 @@ def random_chain(rnd: random.Random) -> list:
     return chain
 
 
+def random_program(rnd: random.Random) -> dict:
+    """A chain/tree plus its layout: nested in an outer class, or spread over two packages loaded one after the other."""
+    chain = random_chain(rnd)
+    r = rnd.random()
+    if r < 0.2:
+        return {"chain": chain, "outer": rnd.choice(["hand", "hand", "plain"]), "split": 0}
+    if r < 0.45:
+        return {"chain": chain, "outer": "none", "split": rnd.randrange(1, len(chain))}
+    return {"chain": chain, "outer": "none", "split": 0}
+
+
 def chain_to_target(chain: list) -> list:
     """CASE encoding (fields as [name, form] pairs) or trace encoding -> the JSON the spec reads."""
     out = []
@@ -123,9 +134,11 @@ def chain_to_target(chain: list) -> list:
 
 
 def run_targets(directory: str, chains: list, fix: list, workers: int = 4):
+    """chains: programs {"chain", "outer", "split"} (a bare chain = module level, one package)."""
+    chains = [c if isinstance(c, dict) else {"chain": c, "outer": "none", "split": 0} for c in chains]
     path = os.path.join(directory, "targets.json")
     with open(path, "w") as fh:
-        json.dump([chain_to_target(c) for c in chains], fh)
+        json.dump([{"chain": chain_to_target(c["chain"]), "outer": c.get("outer", "none"), "split": c.get("split", 0)} for c in chains], fh)
     res = tlc.run("Dataclass", "Dataclass_check.cfg", workers=workers, timeout=1500,
                   constants={"DOMS": tla_set(["target"]), "ALLOW": tla_set(TAGS), "FIX": tla_set(fix), "EMIT": "TRUE"},
                   env={"C18_TARGETS": path, **(JVM_SMALL if len(chains) < 20000 else JVM_BIG)})
@@ -201,7 +214,7 @@ def main(tier: str, replay: str | None = None):
                 rec = json.load(fh)
             print(rec["what"])
             c = rec["case"]["case"]
-            res = run_targets(directory, [c["chain"]], fix, workers=1)
+            res = run_targets(directory, [c], fix, workers=1)
             run.add_tlc(res)
             agg = Agg(run, fix)
             items = [(res.cases[0], c["variant"])]
@@ -236,7 +249,7 @@ def main(tier: str, replay: str | None = None):
                 rnd = random.Random(SEED)
                 seen, chains = set(), []
                 while len(chains) < cfg["ntarget"]:
-                    ch = random_chain(rnd)
+                    ch = random_program(rnd)
                     key = json.dumps(ch, sort_keys=True)
                     if key not in seen:
                         seen.add(key)
